@@ -447,6 +447,129 @@ fn instantiate_battery(r: &mut Runner) {
     r.grid("c16-staking-instantiate-battery", n, 2, n, 0, vec![json!({"config": "K1", "field": "liquid_stake_token_denom", "value": ""})], viols);
 }
 
+/// "For any stored set of batches": stores far larger than any history the searches build. 2 100 batches
+/// (pattern of Received / Submitted, one Pending at the end) and 2 100 tracked packets are written next to a
+/// reachable store; every (start_after, limit, status) triple of a boundary menu is compared with the
+/// answer computed from the list that was written, and clients paging until a short page must see all.
+fn bulk_store_grid(r: &mut Runner) {
+    use milky_way::staking::{Batch, BatchStatus};
+    use staking::msg::{BatchesResponse, IBCQueueResponse, QueryMsg};
+    let k = K::k0();
+    let Some(base) = try_seed(|| seed_received(&k)) else {
+        r.notes.push("bulk store grid skipped: seed unavailable".into());
+        return;
+    };
+    let mut w = base.w.clone();
+    let first = base.m.pending; // the pending batch of the seed becomes an ordinary one
+    let n_total: u64 = 2_100;
+    let mut reference: Vec<(u64, &'static str)> = base.m.batches.values().filter(|b| b.id < first).map(|b| (b.id, match b.status { MStatus::Pending => "pending", MStatus::Submitted => "submitted", MStatus::Received => "received" })).collect();
+    for id in first..first + n_total {
+        let mut b = Batch::new(id, Uint128::new(10 + id as u128), 1_800_000_000 + id);
+        let status = if id == first + n_total - 1 {
+            "pending"
+        } else if id % 7 == 0 || id > first + n_total - 12 {
+            b.update_status(BatchStatus::Submitted, Some(1_900_000_000 + id));
+            b.expected_native_unstaked = Some(Uint128::new(11 + id as u128));
+            "submitted"
+        } else {
+            b.update_status(BatchStatus::Received, None);
+            b.expected_native_unstaked = Some(Uint128::new(11 + id as u128));
+            b.received_native_unstaked = Some(Uint128::new(11 + id as u128));
+            "received"
+        };
+        staking::state::BATCHES.save(&mut w.kv, id, &b).expect("save batch");
+        reference.push((id, status));
+    }
+    staking::state::PENDING_BATCH_ID.save(&mut w.kv, &(first + n_total - 1)).expect("pending id");
+    let mut packets: Vec<u64> = staking::state::INFLIGHT_PACKETS.keys(&w.kv, None, None, cosmwasm_std::Order::Ascending).filter_map(|x| x.ok()).collect();
+    for i in 0..n_total {
+        let seq = 10_000 + i * 3;
+        let p = staking::state::ibc::IBCTransfer {
+            sequence: seq,
+            amount: cosmwasm_std::Coin::new(5 + i as u128, sd()),
+            receiver: n20(&k, "staker"),
+            status: if i % 2 == 0 { staking::state::ibc::PacketLifecycleStatus::Sent } else { staking::state::ibc::PacketLifecycleStatus::TimedOut },
+        };
+        staking::state::INFLIGHT_PACKETS.save(&mut w.kv, seq, &p).expect("save packet");
+        packets.push(seq);
+    }
+    packets.sort();
+    let maxid = first + n_total - 1;
+    let starts: Vec<Option<u64>> = vec![None, Some(0), Some(1), Some(999), Some(1000), Some(1001), Some(1023), Some(1024), Some(2047), Some(2048), Some(maxid - 1), Some(maxid), Some(u64::MAX)];
+    let limits: Vec<Option<u32>> = vec![None, Some(0), Some(1), Some(10), Some(127), Some(128), Some(129), Some(255), Some(256), Some(257), Some(999), Some(1000), Some(1001), Some(2048), Some(5000), Some(u32::MAX)];
+    let mut n = 0u64;
+    let mut nonempty = 0u64;
+    let mut viols = vec![];
+    let mut push = |v: mwsim::explore::Violation, case: serde_json::Value, viols: &mut Vec<(mwsim::explore::Violation, serde_json::Value)>| {
+        if !viols.iter().any(|x: &(mwsim::explore::Violation, serde_json::Value)| x.0.key == v.key) {
+            viols.push((v, case));
+        }
+    };
+    for st in [None, Some(BatchStatus::Pending), Some(BatchStatus::Submitted), Some(BatchStatus::Received)] {
+        let want_status = st.as_ref().map(|s| match s { BatchStatus::Pending => "pending", BatchStatus::Submitted => "submitted", BatchStatus::Received => "received" });
+        for sa in &starts {
+            for lim in &limits {
+                let want: Vec<u64> = reference.iter().filter(|(id, s)| sa.map(|a| *id > a).unwrap_or(true) && want_status.map(|w| w == *s).unwrap_or(true)).map(|x| x.0).take(lim.map(|l| l as usize).unwrap_or(usize::MAX)).collect();
+                let got: Result<BatchesResponse, String> = w.query(QueryMsg::Batches { start_after: *sa, limit: *lim, status: st.clone() });
+                n += 1;
+                let case = json!({"query": "Batches", "start_after": sa, "limit": lim, "status": want_status, "stored_batches": reference.len()});
+                match got {
+                    Ok(resp) => {
+                        let ids: Vec<u64> = resp.batches.iter().map(|b| b.id).collect();
+                        if !ids.is_empty() {
+                            nonempty += 1;
+                        }
+                        if ids != want {
+                            push(viol("C17", "bulk.batches.page", format!("Batches(start_after={sa:?}, limit={lim:?}, status={want_status:?}) on {} stored batches returned {} ids (first {:?}, last {:?}); expected {} (first {:?}, last {:?})", reference.len(), ids.len(), ids.first(), ids.last(), want.len(), want.first(), want.last())), case, &mut viols);
+                        }
+                    }
+                    Err(e) => push(viol("C17", "bulk.batches.error", format!("Batches(start_after={sa:?}, limit={lim:?}, status={want_status:?}) failed: {e}")), case, &mut viols),
+                }
+            }
+        }
+        // a client paging until a short page
+        for page in [7u32, 100, 1000] {
+            let mut seen: Vec<u64> = vec![];
+            let mut cursor: Option<u64> = None;
+            for _ in 0..(n_total / page as u64 + 3) {
+                let got: Result<BatchesResponse, String> = w.query(QueryMsg::Batches { start_after: cursor, limit: Some(page), status: st.clone() });
+                n += 1;
+                let Ok(resp) = got else { break };
+                let ids: Vec<u64> = resp.batches.iter().map(|b| b.id).collect();
+                seen.extend(ids.iter());
+                if (ids.len() as u32) < page {
+                    break;
+                }
+                cursor = ids.last().copied();
+            }
+            let want: Vec<u64> = reference.iter().filter(|(_, s)| want_status.map(|w| w == *s).unwrap_or(true)).map(|x| x.0).collect();
+            if seen != want {
+                push(viol("C17", "bulk.batches.client_paging", format!("paging Batches(status={want_status:?}) by {page} until a short page saw {} of {} batches (last {:?})", seen.len(), want.len(), seen.last())), json!({"query": "Batches", "page": page, "status": want_status}), &mut viols);
+            }
+        }
+    }
+    let pstarts: Vec<Option<u64>> = vec![None, Some(0), Some(9_999), Some(10_000), Some(10_001), Some(13_000), Some(*packets.last().unwrap()), Some(u64::MAX)];
+    for sa in &pstarts {
+        for lim in &limits {
+            let want: Vec<u64> = packets.iter().copied().filter(|s| sa.map(|a| *s > a).unwrap_or(true)).take(lim.map(|l| l as usize).unwrap_or(usize::MAX)).collect();
+            let got: Result<IBCQueueResponse, String> = w.query(QueryMsg::IbcQueue { start_after: *sa, limit: *lim });
+            n += 1;
+            let case = json!({"query": "IbcQueue", "start_after": sa, "limit": lim, "stored_packets": packets.len()});
+            match got {
+                Ok(resp) => {
+                    let ids: Vec<u64> = resp.ibc_queue.iter().map(|p| p.sequence).collect();
+                    if ids != want {
+                        push(viol("C17", "bulk.queue.page", format!("IbcQueue(start_after={sa:?}, limit={lim:?}) on {} stored packets returned {} (last {:?}); expected {} (last {:?})", packets.len(), ids.len(), ids.last(), want.len(), want.last())), case, &mut viols);
+                    }
+                }
+                Err(e) => push(viol("C17", "bulk.queue.error", format!("IbcQueue(start_after={sa:?}, limit={lim:?}) failed: {e}")), case, &mut viols),
+            }
+        }
+    }
+    r.grid("c17-bulk-store: 2100 batches and 2100 packets x (start_after, limit, status) boundary menu + client paging", n, 2, nonempty, n - nonempty, vec![json!({"query": "Batches", "start_after": 1000, "limit": 1001, "status": "received"})], viols);
+    r.require(nonempty > 200, "bulk store grid must return data");
+}
+
 // ------------------------------------------------------------------------------------------ C17
 fn query_plans(thorough: bool) -> Vec<Plan> {
     let mut out = vec![];
@@ -499,6 +622,9 @@ pub fn run(prop: &str, thorough: bool) -> i32 {
     if prop == "C10" {
         fresh_instances(&mut r);
         halted_survives_migration(&mut r);
+    }
+    if prop == "C17" {
+        bulk_store_grid(&mut r);
     }
     if prop == "C16" {
         crate::treasury_grid::panic_battery(&mut r);
